@@ -91,6 +91,61 @@ Definition wrec_props (r : wrec) : Props :=
 Definition props_timing (p : Props) : Props :=
   mkProps D.one (pr_sig p) (pr_bank p) (pr_custom p) (pr_vol p) (pr_flags p).
 
+(* the lookups of ControlPointProperties::new without their panic outcome (on sorted
+   collections they never panic: Proofs/ControlPointsFacts.at_opt_spec) *)
+Definition dp_lookup (c : ControlPoints) (t : F64) : option DifficultyPoint :=
+  match difficulty_point_at c t with Done o => o | _ => None end.
+Definition ep_lookup (c : ControlPoints) (t : F64) : option EffectPoint :=
+  match effect_point_at c t with Done o => o | _ => None end.
+
+(* ControlPointProperties::new, as a value *)
+Definition props_at (c : ControlPoints) (time : F64) (last : Props) (update_bank : bool) : Props :=
+  let timing := timing_point_at c time in
+  let sample := match sample_point_at c time with Some p => p | None => dflt_sp end in
+  let tmp := sp_apply sample (hs_new (NDefault nm_normal) None 0 0) in
+  let kiai := ep_kiai_or (ep_lookup c time) in
+  let omit := match timing with Some p => tp_omit p | None => false end in
+  mkProps (dp_sv_or (dp_lookup c time))
+          (match timing with Some p => tp_sig p | None => tp_default_signature end)
+          (if update_bank then hs_bank tmp else pr_bank last)
+          (if 0 <=? hs_custom tmp then hs_custom tmp else pr_custom last)
+          (hs_volume tmp)
+          (Z.lor (if kiai then effect_kiai else effect_none)
+                 (if omit then effect_omit_first_bar_line else effect_none)).
+
+(* one decision of the loop per group: the properties computed for it and whether the
+   inherited line is written (the timing line is written iff the group has a timing point) *)
+Record gdec := mkGD { gd_group : Group; gd_props : Props; gd_inh : bool }.
+
+Definition has_timing (g : Group) : bool := match gr_timing g with Some _ => true | None => false end.
+
+Fixpoint group_decisions (c : ControlPoints) (last : Props) (gs : list Group) : list gdec :=
+  match gs with
+  | [] => []
+  | g :: r =>
+      let props := props_at c (gr_time g) last (has_timing g) in
+      let last1 := if has_timing g then props_timing props else last in
+      if props_redundant props last1 then mkGD g props false :: group_decisions c last1 r
+      else mkGD g props true :: group_decisions c props r
+  end.
+
+(* the records written for one group, in order *)
+Definition gd_block (d : gdec) : list wrec :=
+  match gr_timing (gd_group d) with Some t => [WT t (gd_props d)] | None => [] end ++
+  (if gd_inh d then [WI (gr_time (gd_group d)) (gd_props d)] else []).
+
+Definition enc_decisions (c : ControlPoints) : list gdec := group_decisions c props_default (groups_of c).
+Definition enc_records (c : ControlPoints) : list wrec := flat_map gd_block (enc_decisions c).
+
+(* every written record is a line the decoder's field parser can take: times and beat
+   fields within the parse limits, integer fields within i32 (the beat field of an
+   inherited line is -100/sv) *)
+Definition wrec_ok (r : wrec) : bool :=
+  match r with
+  | WT t p => tp_line_ok (tp_time t) (tp_beat_len t) p true
+  | WI time p => tp_line_ok time (D.div f64_m100 (pr_sv p)) p false
+  end.
+
 (* ---------- exclusions ---------- *)
 
 Definition cp_times (c : ControlPoints) : list F64 :=
@@ -117,9 +172,9 @@ Definition scroll_values (c : ControlPoints) : list F64 := D.one :: map ep_scrol
 Definition values_separated (c : ControlPoints) : bool :=
   all_pairs near_eq (sv_values c) && all_pairs near_eq (scroll_values c).
 
-(* what the decoder computes from the beat-length field "-100/sv" of an inherited line *)
-Definition sv_back (sv : F64) : F64 :=
-  let b := D.div f64_m100 sv in dp_sv (dp_new D.zero b (speed_multiplier b)).
+(* what the decoder computes from the beat-length field "-100/sv" of an inherited line,
+   before the clamps: speed_multiplier = 100 / -beat_len for a negative beat length *)
+Definition sv_back (sv : F64) : F64 := speed_multiplier (D.div f64_m100 sv).
 Definition sv_round_trips (sv : F64) : bool := f64_eqb (sv_back sv) sv.
 Definition svs_round_trip (c : ControlPoints) : bool := forallb sv_round_trips (map dp_sv (cp_difficulty c)).
 
